@@ -475,6 +475,13 @@ def default_for_type(E, t):
         return UNIT
     if tl == 'RandomState':
         return UNIT
+    if t.startswith('&'):
+        inner = t.lstrip('&').strip()
+        inner = inner[inner.index(' ') + 1:] if inner.startswith("'") and ' ' in inner else inner
+        if inner == 'str':
+            return Slice([], 0, 0, 'str')
+        if inner.startswith('['):
+            return Slice([], 0, 0, 'slice')
     f = E.prog.resolve(f'<{t} as std::default::Default>::default')
     if f is not None:
         return E.call_fn(f, [], None)
@@ -710,11 +717,47 @@ def _is_whitespace(E, ci, c):
     return char_is_whitespace(_ch(c))
 
 
+_UNI = {}
+
+
+def _uni_ranges(name):
+    """ranges of non-ASCII code points, from Python's unicodedata: 'numeric' = general categories Nd/Nl/No (Rust's
+    char::is_numeric), 'assigned' = everything but Cn/Cs"""
+    if name not in _UNI:
+        import unicodedata
+        test = {'numeric': lambda cat: cat in ('Nd', 'Nl', 'No'), 'assigned': lambda cat: cat not in ('Cn', 'Cs')}[name]
+        out = []
+        start = None
+        for cp in range(0x80, 0x110001):
+            ok = cp < 0x110000 and test(unicodedata.category(chr(cp)))
+            if ok and start is None:
+                start = cp
+            elif not ok and start is not None:
+                out.append((start, cp - 1))
+                start = None
+        _UNI[name] = out
+    return _UNI[name]
+
+
+def _in_ranges(c, ranges):
+    return z3.Or(*[z3.And(z3.UGE(c.v, lo), z3.ULE(c.v, hi)) if lo != hi else c.v == lo for lo, hi in ranges])
+
+
 @model('char::is_numeric', 'char::is_alphabetic', 'char::is_alphanumeric', 'char::is_uppercase',
        'char::is_lowercase')
 def _char_unicode_pred(E, ci, c):
     c = _ch(c)
+    if c.conc() and ci.method == 'is_numeric':
+        import unicodedata
+        return unicodedata.category(chr(c.v)) in ('Nd', 'Nl', 'No')
     if not c.conc():
+        if ci.method == 'is_numeric' and not E.branch(in_range(c, 0, 127)):
+            # non-ASCII: decided by the category table; code points unassigned in this Python's Unicode version are
+            # excluded (the Unicode tables of rustc may be newer) - an input restriction listed with the evidence
+            E.assume(_in_ranges(c, _uni_ranges('assigned')))
+            E.assume_sites.add('char::is_numeric on a symbolic non-ASCII char: code points unassigned in Unicode %s excluded'
+                               % __import__('unicodedata').unidata_version)
+            return E.branch(_in_ranges(c, _uni_ranges('numeric')))
         if E.branch(in_range(c, 0, 127)):
             m = {'is_numeric': _is_ascii_digit, 'is_alphabetic': _is_ascii_alpha, 'is_alphanumeric': _is_ascii_alnum,
                  'is_uppercase': _is_ascii_upper, 'is_lowercase': _is_ascii_lower}[ci.method]
@@ -2527,6 +2570,61 @@ for _tr, _m, _op in (('Add', 'add', 'Add'), ('Sub', 'sub', 'Sub'), ('Mul', 'mul'
         return f
     MODELS[f'{_tr}::{_m}'] = _mk()
     MODELS[f'{_tr}Assign::{_m}_assign'] = _mka()
+
+
+@model('<array as TryFrom>::try_from')
+def _array_try_from(E, ci, s):
+    import re as _re
+    m = _re.search(r'\[[^;\]]+; (\d+)\]', ci.self_ty or ci.raw)
+    if not m:
+        raise ModelGap('array TryFrom: ' + ci.raw)
+    n = int(m.group(1))
+    v = deref(s)
+    items = list(v.fields) if isinstance(v, Agg) and v.ty == 'array' else list(as_slice(v).items())
+    if len(items) != n:
+        return err(Agg('TryFromSliceError', 0, [UNIT]))
+    return ok(Agg('array', 0, [clone_val(E, x) for x in items]))
+
+
+def _int_from_bytes(big):
+    def f(E, ci, arr):
+        t = ci.self_last
+        a = deref(arr)
+        items = list(a.fields) if isinstance(a, Agg) else list(as_slice(a).items())
+        if not big:
+            items = items[::-1]
+        if all(x.conc() for x in items):
+            v = 0
+            for x in items:
+                v = (v << 8) | (x.v & 0xff)
+            return mkint(t, v)
+        return from_z(t, z3.Concat(*[x.v if not x.conc() else z3.BitVecVal(x.v & 0xff, 8) for x in items]))
+    return f
+
+
+def _int_to_bytes(big):
+    def f(E, ci, x):
+        x = deref(x)
+        w = WIDTH[x.t]
+        out = []
+        for k in range(w // 8):
+            if x.conc():
+                out.append(U8((x.v >> (8 * k)) & 0xff))
+            else:
+                out.append(from_z('u8', z3.Extract(8 * k + 7, 8 * k, x.v)))
+        if big:
+            out = out[::-1]
+        return Agg('array', 0, out)
+    return f
+
+
+for _t in ('u16', 'u32', 'u64', 'u128', 'usize', 'i16', 'i32', 'i64', 'i128', 'isize'):
+    MODELS[_t + '::from_be_bytes'] = _int_from_bytes(True)
+    MODELS[_t + '::from_le_bytes'] = _int_from_bytes(False)
+    MODELS[_t + '::from_ne_bytes'] = _int_from_bytes(False)
+    MODELS[_t + '::to_be_bytes'] = _int_to_bytes(True)
+    MODELS[_t + '::to_le_bytes'] = _int_to_bytes(False)
+    MODELS[_t + '::to_ne_bytes'] = _int_to_bytes(False)
 
 
 @model('<String as AddAssign>::add_assign')
